@@ -95,7 +95,8 @@ class Concretiser:
             hv = self.val(f_uuid_hyph(t))
             canonical = hv == self.val(t)
             if hv not in self.uuid_num:
-                self.uuid_num[hv] = 0xa0000000000000000000000000000000 + len(self.uuid_num) + 1
+                lead = getattr(self, 'order_index', None)
+                self.uuid_num[hv] = ((lead if lead else 0xa0) << 120) + len(self.uuid_num) + 1
             num = self.uuid_num[hv]
             txt = self._uuid_text(num, canonical)
             if canonical:
@@ -106,7 +107,8 @@ class Concretiser:
                     return cand
             raise ValueError('out of uuid spellings')
         if role == 'uuid':
-            return self.fresh('not-a-uuid-%d')
+            lead = getattr(self, 'order_index', None)
+            return self.fresh(('%02x' % lead if lead else 'zz') + '-not-a-uuid-%d')
         if self.bool(f_dec_ok(t)) and role in ('decimal', 'other', 'name'):
             n, d = self.int(f_dec_n(t)), self.int(f_dec_d(t))
             full = len(str(d)) - 1
@@ -144,6 +146,14 @@ class Concretiser:
     def assign_all(self):
         """assign text to every named symbol, in role priority order so shared atoms get the most demanding spelling"""
         items = [(n, t) for n, t in self.sym.items() if isinstance(t, z3.ExprRef) and t.sort() == StrS]
+        # storage keys first, in the byte order the model assumes for the store (key_rank), so that native iteration order agrees
+        from .models import f_key_rank
+        keys = [(n, t) for n, t in items if n.endswith('.key')]
+        keys.sort(key=lambda nt: self.int(f_key_rank(nt[1])))
+        for idx, (n, t) in enumerate(keys):
+            self.order_index = idx + 1
+            self.string(t, 'uuid')
+        self.order_index = None
         order = {r: i for i, r in enumerate(self.ROLE_ORDER)}
         items.sort(key=lambda nt: order[self.role_of(nt[0])])
         for n, t in items:
